@@ -4,7 +4,7 @@
    along every guard-free prefix -- with no hypothesis about E- or M-step left. *)
 From Coq Require Import Reals Lra Lia List.
 From PB Require Import Ops CLin Model.Posterior Model.Trainers Model.EM Model.GMMLoop
-     Proofs.EM Proofs.EMAscent Proofs.Posterior Proofs.GMMAscent.
+     Proofs.EM Proofs.EMAscent Proofs.Posterior Proofs.GMMAscent Proofs.GMMSphAscent.
 Import ListNotations.
 Open Scope R_scope.
 
@@ -131,5 +131,81 @@ Proof. intros HG. unfold gmm_fit, fit in *.
   replace (S j - 1)%nat with j by lia. replace (1 - 1)%nat with 0%nat by lia. change (fit_from E_ M_ 0 (M_ g0)) with (M_ g0).
   apply (fit_monotone_guarded _ _ E_ M_ mloglik model_guard).
   - intros t Ht. apply gmm_model_step_ascent; exact Ht.
+  - intros i Hi. specialize (HG i Hi). replace (S i - 1)%nat with i in HG by lia. exact HG. Qed.
+(* ---------------- the spherical loop: gmm_fit_sph ---------------- *)
+Hypothesis HD : (0 < D)%nat.
+Notation Ms_ := (gmm_M_sph RO K' D N tiny tinyw y).
+(* the variance rows of a model are constant (every model gmm_M_sph returns is) *)
+Definition tied (m : gmmR) : Prop := forall k d, (k < K)%nat -> (d < D)%nat -> mv m k d = mv m k 0%nat.
+Definition vsm (m : gmmR) (k : nat) : R := mv m k 0%nat.
+Definition tsph (m : gmmR) : theta := (mw m, mmu m, fun k _ => vsm m k).
+
+Lemma mloglik_tied m : tied m -> mloglik m = gmm_loglik K' D N y (tsph m).
+Proof. intros Ht. rewrite mloglik_theta. apply gmm_loglik_ext; unfold mtheta, tsph, tw, tmu, tv; cbn [fst snd].
+  - intros; reflexivity.
+  - intros; reflexivity.
+  - intros k d Hk Hd. unfold vsm. apply Ht; assumption. Qed.
+
+Lemma joint_ext (ww : nat -> R) (mm v1 v2 : nat -> nat -> R) n k :
+  (forall d, (d < D)%nat -> v1 k d = v2 k d) -> joint D y ww mm v1 n k = joint D y ww mm v2 n k.
+Proof. intros H. unfold joint, glp. f_equal. f_equal. f_equal. f_equal.
+  - apply rsum_ext; intros d Hd. rewrite (H d Hd). reflexivity.
+  - f_equal. apply rsum_ext; intros d Hd. rewrite (H d Hd). reflexivity. Qed.
+Lemma gam_ext (ww : nat -> R) (mm v1 v2 : nat -> nat -> R) n k :
+  (forall j d, (j < K)%nat -> (d < D)%nat -> v1 j d = v2 j d) -> (k < K)%nat ->
+  gam K' D y ww mm v1 n k = gam K' D y ww mm v2 n k.
+Proof. intros H Hk. unfold gam, gamma. fold K.
+  assert (E : rsum K (joint D y ww mm v1 n) = rsum K (joint D y ww mm v2 n)).
+  { apply rsum_ext; intros j Hj. apply joint_ext. intros d Hd. apply H; assumption. }
+  rewrite E. rewrite (joint_ext ww mm v1 v2 n k) by (intros d Hd; apply H; assumption). reflexivity. Qed.
+Lemma g_cov_sph_ext (s s' : nat -> R) : (forall n, (n < N)%nat -> s n = s' n) ->
+  g_cov_sph RO D N tiny y s = g_cov_sph RO D N tiny y s'.
+Proof. intros H. unfold g_cov_sph. rewrite (g_den_ext s s' H). f_equal. apply bsum_ext_RO; intros n Hn.
+  rewrite (H n Hn). f_equal. apply bsum_ext_RO; intros d Hd. rewrite (g_mean_ext s s' d H). reflexivity. Qed.
+
+Lemma Ms_tied g : tied (Ms_ g).
+Proof. intros k d Hk Hd. unfold mv, gmm_M_sph, nth2T. cbn [gvar]. fold K. rewrite (nth_tabl K) by exact Hk.
+  rewrite (nth_tabl D) by exact Hd. rewrite (nth_tabl D) by exact HD. reflexivity. Qed.
+
+Definition model_guard_sph (m : gmmR) : Prop :=
+  floor_inactive m /\ tied m /\
+  (forall k, (k < K)%nat -> 0 < mw m k) /\ rsum K (mw m) = 1 /\ (forall k, (k < K)%nat -> 0 < vsm m k) /\
+  (forall k, (k < K)%nat -> tiny <= rsum N (fun n => gam K' D y (mw m) (mmu m) (fun k0 _ => vsm m k0) n k)) /\
+  (forall k, (k < K)%nat -> 0 < vs' K' D N tiny y (mw m) (mmu m) (vsm m) k).
+
+Theorem gmm_model_step_ascent_sph m : model_guard_sph m -> mloglik m <= mloglik (Ms_ (E_ m)).
+Proof. intros [Hfl [Ht [Hw [Hs [Hv [Hm Hv2]]]]]].
+  rewrite (mloglik_tied m Ht). rewrite (mloglik_tied _ (Ms_tied (E_ m))).
+  pose proof (gmm_sph_em_step_ascent K' D N tiny tinyw y Htiny HN HD (mw m) (mmu m) (vsm m) Hw Hs Hv Hm Hv2) as A.
+  eapply Rle_trans. exact A. right.
+  assert (Hw0 : forall j, (j < K)%nat -> 0 <= mw m j) by (intros j Hj; left; apply Hw; exact Hj).
+  (* the affiliation the model's E-step returns is the posterior of the tied model *)
+  assert (Ea : forall j n, (j < K)%nat -> (n < N)%nat ->
+            nth2T RO (E_ m) j n = gam K' D y (mw m) (mmu m) (fun k0 _ => vsm m k0) n j).
+  { intros j n Hj Hn. rewrite (E_is_gam m j n Hw0 Hfl Hj Hn). apply gam_ext; [|exact Hj].
+    intros j0 d Hj0 Hd. unfold vsm. apply Ht; assumption. }
+  symmetry. unfold gmm_loglik at 1. unfold tsph, tw, tmu, tv. cbn [fst snd].
+  change (loglik N (S K') (fun _ : nat => 1)
+            (joint D y (mw (Ms_ (E_ m))) (mmu (Ms_ (E_ m))) (fun k _ => vsm (Ms_ (E_ m)) k)))
+    with (gmm_loglik K' D N y (mw (Ms_ (E_ m)), mmu (Ms_ (E_ m)), fun k (_ : nat) => vsm (Ms_ (E_ m)) k)).
+  change (loglik N (S K') (fun _ : nat => 1) ?q) with (loglik N (S K') (fun _ : nat => 1) q).
+  match goal with |- _ = loglik N (S K') (fun _ => 1) (joint D y ?a ?b ?c) =>
+    change (loglik N (S K') (fun _ : nat => 1) (joint D y a b c)) with (gmm_loglik K' D N y (a, b, c)) end.
+  apply gmm_loglik_ext; unfold tw, tmu, tv; cbn [fst snd].
+  - intros k Hk. unfold mw, gmm_M_sph, nthT. cbn [gw]. fold K. rewrite (nth_tabl K) by exact Hk. unfold w'.
+    apply weight_sal_ext; [|exact Hk]. intros j n Hj Hn. apply (Ea j n Hj Hn).
+  - intros k d Hk Hd. unfold mmu, gmm_M_sph, nth2T. cbn [gmean]. fold K. rewrite (nth_tabl K) by exact Hk.
+    rewrite (nth_tabl D) by exact Hd. unfold mu'. apply g_mean_ext. intros n Hn. apply (Ea k n Hk Hn).
+  - intros k d Hk Hd. unfold vsm, mv, gmm_M_sph, nth2T. cbn [gvar]. fold K. rewrite (nth_tabl K) by exact Hk.
+    rewrite (nth_tabl D) by exact HD. unfold vs'. apply g_cov_sph_ext. intros n Hn. apply (Ea k n Hk Hn). Qed.
+
+(* the whole spherical fit *)
+Theorem gmm_fit_sph_monotone g0 j :
+  (forall i, (i < j)%nat -> model_guard_sph (gmm_fit_sph RO K' D N tiny tinyw (2 * PI) y (S i) g0)) ->
+  mloglik (gmm_fit_sph RO K' D N tiny tinyw (2 * PI) y 1 g0) <= mloglik (gmm_fit_sph RO K' D N tiny tinyw (2 * PI) y (S j) g0).
+Proof. intros HG. unfold gmm_fit_sph, fit in *.
+  replace (S j - 1)%nat with j by lia. replace (1 - 1)%nat with 0%nat by lia. change (fit_from E_ Ms_ 0 (Ms_ g0)) with (Ms_ g0).
+  apply (fit_monotone_guarded _ _ E_ Ms_ mloglik model_guard_sph).
+  - intros t Ht. apply gmm_model_step_ascent_sph; exact Ht.
   - intros i Hi. specialize (HG i Hi). replace (S i - 1)%nat with i in HG by lia. exact HG. Qed.
 End Refine.
